@@ -377,6 +377,11 @@ func runObsCase(t *testing.T, c *c16ObsCase) {
 			blocks = append(blocks, h.Block)
 			ids = append(ids, h.IDs...)
 		}
+		// an earlier round observes the same staged block before the accepts / logs of c.Post arrive: what it was told
+		// must not be reused for the observation judged below
+		if len(c.Post) > 0 {
+			_, _ = nd.plugin.Observation(context.Background(), ocr2types.ReportTimestamp{Epoch: c.Epoch, Round: c.Round}, nil)
+		}
 		applyPre(t, nd, c.Post)
 		ob.Pend = pendTable(nd, blocks, ids)
 		b, oerr := nd.plugin.Observation(context.Background(), ocr2types.ReportTimestamp{Epoch: c.Epoch, Round: c.Round}, nil)
